@@ -10,13 +10,26 @@
 // remaining() (RFC 9114 §7.1); a unidirectional stream starts with varint(stream type) (§6.2); WebTransport
 // streams start with varint(0x54 | 0x41) ++ varint(session id).
 //
+// Structure (modular, the way the code is):
+//   Part A  every `From` impl establishes  `pos == 0`, `len <= 64`, `buf[..len] == spec bytes`, the frame
+//           (and its payload) stored untouched.                                   [C14.writebuf.from.*]
+//   Part B  `impl Buf` on EVERY representable state `pos <= len <= 64` with arbitrary header bytes, for each
+//           shape of `frame` (None / Data(payload) / payload-less frames / Headers(Bytes)): remaining(),
+//           chunk(), advance() expose `buf[pos..len] ++ payload`, header first, nothing skipped or
+//           repeated, `pos <= len` preserved, under any two advances.              [C14.writebuf.buf.*]
+//   Part C  the two composed, end to end, for DATA frames (From + two advances / chunk-wise drain).
+//
 // Payloads are a content-free mock `Buf` (symbolic length < 2^62, symbolic first-chunk length, counts what
 // was advanced, chunks recognised by pointer identity): `WriteBuf` never looks inside a payload.
 // The frame variant is concrete in every harness (a symbolic discriminant sends CBMC through the drop /
 // clone glue of the `Bytes`-holding variants via function pointers and does not finish).
-// `fastrand::u64` is stubbed (generic signature repeated) by "any value of the requested range".
-// Not here: `UniStreamHeader::Control(settings)` for non-empty `Settings` (needs the C13 / config harnesses:
-// Config -> Settings -> bytes, and that those at most 42 bytes fit the 64-byte buffer).
+// `fastrand::u64` is stubbed (generic signature repeated) by "any value of the requested range"; the stub
+// logs what it returned so that grease values are compared with 0x1f * N + 0x21 for the very N drawn.
+// `UniStreamHeader::Control(settings)` with non-empty `Settings`: the sequence of puts the real
+// `UniStreamHeader::encode` makes for every `Config`, and that it is <= 64 bytes, is C13.config.wire
+// (kani/h3/src/config.rs, against a recording sink); what `WriteBuf` adds — `encode_value`: whatever an
+// encoder puts (<= the room left) lands verbatim behind `len`, nothing else moves — is proved here for an
+// arbitrary content-free encoder [C14.writebuf.encode-value], plus the empty-settings instance end to end.
 use super::*;
 #[path = "/verif/kani/_spec.rs"]
 mod spec;
@@ -24,12 +37,28 @@ use crate::proto::push::PushId;
 use spec::*;
 use std::convert::TryFrom;
 
+static mut RAND_LOG: [u64; 2] = [0; 2];
+static mut RAND_CNT: usize = 0;
 fn stub_fastrand_u64<R: std::ops::RangeBounds<u64>>(r: R) -> u64 {
     let x: u64 = kani::any();
     kani::assume(r.contains(&x));
+    unsafe {
+        if RAND_CNT < 2 {
+            RAND_LOG[RAND_CNT] = x;
+        }
+        RAND_CNT += 1;
+    }
     x
 }
-
+fn rand_log(i: usize) -> u64 {
+    unsafe {
+        assert!(i < RAND_CNT);
+        RAND_LOG[i]
+    }
+}
+fn rand_count() -> usize {
+    unsafe { RAND_CNT }
+}
 static MOCK_BYTES: [u8; 4] = [0xa5; 4];
 
 struct MockPayload {
@@ -69,39 +98,51 @@ fn payload_state(wb: &W) -> Option<(usize, usize)> {
     }
 }
 
-/// The `Buf` view of `wb` after `consumed` bytes of `want ++ payload` were taken (payload: (rem0, cap)).
-fn check_view(wb: &W, want: &SpecBytes, pl: Option<(usize, usize)>, consumed: usize) {
-    let n = want.n;
-    let rem0 = match pl {
-        Some((r, _)) => r,
+/// [C14.writebuf.from] postcondition of every `From` impl: cursor at 0, header == spec bytes, fits the buffer.
+fn assert_fresh(wb: &W, want: &SpecBytes) {
+    assert!(wb.pos == 0);
+    assert!(wb.len == want.n);
+    assert!(wb.len <= WRITE_BUF_ENCODE_SIZE); // [C14.writebuf.capacity]
+    let k: usize = kani::any(); // every index at once
+    kani::assume(k < want.n);
+    assert!(wb.buf[k] == want.b[k]);
+}
+
+/// An arbitrary representable state: any header bytes, any `pos <= len <= 64`.
+fn any_state(frame: Option<Frame<MockPayload>>) -> W {
+    let buf: [u8; WRITE_BUF_ENCODE_SIZE] = kani::any();
+    let len: usize = kani::any();
+    let pos: usize = kani::any();
+    kani::assume(len <= WRITE_BUF_ENCODE_SIZE && pos <= len);
+    WriteBuf { buf, len, pos, frame }
+}
+
+/// [C14.writebuf.buf] the `Buf` view: `buf0[pos..len0] ++ payload`, where the payload (if any) has `r` bytes
+/// left, first-chunk bound `cap`, and has been advanced by `adv` so far.
+fn view_matches(wb: &W, buf0: &[u8; WRITE_BUF_ENCODE_SIZE], len0: usize, pos: usize, pl: Option<(usize, usize, usize)>) {
+    assert!(wb.len == len0 && wb.pos == pos && wb.pos <= wb.len);
+    let prem = match pl {
+        Some((r, _, _)) => r,
         None => 0,
     };
-    // [C14.writebuf.capacity] the header fits the on-stack buffer and the cursor stays inside it
-    assert!(wb.len == n);
-    assert!(wb.len <= WRITE_BUF_ENCODE_SIZE);
-    assert!(wb.pos <= wb.len);
-    assert!(wb.remaining() == n + rem0 - consumed);
+    assert!(wb.remaining() == (len0 - pos) + prem);
     let c = wb.chunk();
-    if consumed < n {
-        assert!(wb.pos == consumed);
-        assert!(c.len() == n - consumed);
-        let mut i = 0;
-        while i < 24 {
-            if i < c.len() {
-                assert!(c[i] == want.b[consumed + i]);
-            }
-            i += 1;
-        }
-        if pl.is_some() {
-            assert!(payload_state(wb) == Some((rem0, 0)));
+    if pos < len0 {
+        // the rest of the header, in place, and only that
+        assert!(c.as_ptr() == wb.buf[pos..].as_ptr());
+        assert!(c.len() == len0 - pos);
+        let k: usize = kani::any();
+        kani::assume(k < c.len());
+        assert!(c[k] == buf0[pos + k]); // header bytes never modified
+        if let Some((r, _, adv)) = pl {
+            assert!(payload_state(wb) == Some((r, adv)));
         }
     } else {
         match pl {
-            Some((_, cap)) => {
-                let prem = rem0 - (consumed - n);
-                assert!(payload_state(wb) == Some((prem, consumed - n)));
+            Some((r, cap, adv)) => {
+                assert!(payload_state(wb) == Some((r, adv)));
                 assert!(c.as_ptr() == MOCK_BYTES.as_ptr());
-                assert!(c.len() == if prem < cap { prem } else { cap });
+                assert!(c.len() == if r < cap { r } else { cap });
             }
             None => {
                 assert!(c.is_empty());
@@ -111,74 +152,71 @@ fn check_view(wb: &W, want: &SpecBytes, pl: Option<(usize, usize)>, consumed: us
     assert!((wb.remaining() == 0) == c.is_empty());
 }
 
-/// one arbitrary in-range advance, view checked before and after
-fn check_with_one_advance(mut wb: W, want: &SpecBytes, pl: Option<(usize, usize)>) -> usize {
-    check_view(&wb, want, pl, 0);
-    let total = wb.remaining();
-    let a: usize = kani::any();
-    kani::assume(a <= total);
-    wb.advance(a);
-    check_view(&wb, want, pl, a);
+/// header-only states (frame None or a payload-less frame): two arbitrary advances
+fn check_buf_no_payload(mut wb: W) -> (usize, usize, usize) {
+    let (buf0, len0, pos0) = (wb.buf, wb.len, wb.pos);
+    view_matches(&wb, &buf0, len0, pos0, None);
+    let a1: usize = kani::any();
+    kani::assume(a1 <= len0 - pos0);
+    wb.advance(a1);
+    view_matches(&wb, &buf0, len0, pos0 + a1, None);
+    let a2: usize = kani::any();
+    kani::assume(a2 <= len0 - pos0 - a1);
+    wb.advance(a2);
+    view_matches(&wb, &buf0, len0, pos0 + a1 + a2, None);
     std::mem::forget(wb);
-    a
+    (len0 - pos0, a1, a2)
 }
 
-// ---------------------------------------------------------------------------------- stream headers
+// =========================================================================== Part A: the From impls
 
-// vp: props=C14; tag=C14.writebuf.streamtype; kind=complete; tier=quick
-// WriteBuf::from(StreamType(t)) is varint(t), for every t, under any advance
+// vp: props=C14; tag=C14.writebuf.from.streamtype; kind=complete; tier=quick
+// WriteBuf::from(StreamType(t)) is varint(t), for every t
 #[kani::proof]
-#[kani::unwind(25)]
+#[kani::unwind(10)]
 fn c14_writebuf_from_streamtype() {
     let t: u64 = kani::any();
     kani::assume(t < TWO62);
     let wb = W::from(StreamType::from_value(t));
     assert!(wb.frame.is_none());
     let want = spec_bytes_varint(spec_bytes_new(), t);
-    let a = check_with_one_advance(wb, &want, None);
-    kani::cover!(want.n == 8 && a == 3);
-    kani::cover!(want.n == 1 && a == 1);
-    kani::cover!(a == 0);
+    assert_fresh(&wb, &want);
+    kani::cover!(want.n == 8);
+    kani::cover!(want.n == 1);
 }
 
-// vp: props=C14; tag=C14.writebuf.uni.qpack; kind=complete; tier=quick
+// vp: props=C14; tag=C14.writebuf.from.uni.qpack; kind=complete; tier=quick
 // QPACK encoder / decoder streams start with 0x02 / 0x03
 #[kani::proof]
-#[kani::unwind(25)]
+#[kani::unwind(10)]
 fn c14_writebuf_from_uni_header_qpack() {
-    let a1 = check_with_one_advance(
-        W::from(UniStreamHeader::Encoder),
-        &spec_bytes_varint(spec_bytes_new(), SPEC_ST_QPACK_ENCODER),
-        None,
-    );
-    let a2 = check_with_one_advance(
-        W::from(UniStreamHeader::Decoder),
-        &spec_bytes_varint(spec_bytes_new(), SPEC_ST_QPACK_DECODER),
-        None,
-    );
-    kani::cover!(a1 == 1 && a2 == 0);
+    let e = W::from(UniStreamHeader::Encoder);
+    assert_fresh(&e, &spec_bytes_varint(spec_bytes_new(), SPEC_ST_QPACK_ENCODER));
+    assert!(e.frame.is_none() && e.len == 1 && e.buf[0] == 0x02);
+    let d = W::from(UniStreamHeader::Decoder);
+    assert_fresh(&d, &spec_bytes_varint(spec_bytes_new(), SPEC_ST_QPACK_DECODER));
+    assert!(d.frame.is_none() && d.len == 1 && d.buf[0] == 0x03);
+    kani::cover!(true);
 }
 
-// vp: props=C14; tag=C14.writebuf.uni.control-empty; kind=complete; tier=quick
+// vp: props=C14; tag=C14.writebuf.from.uni.control-empty; kind=complete; tier=quick
 // the control stream header with no settings: stream type 0x00, then an empty SETTINGS frame 04 00
 #[kani::proof]
-#[kani::unwind(25)]
+#[kani::unwind(10)]
 #[kani::stub(fastrand::u64, stub_fastrand_u64)]
 fn c14_writebuf_from_uni_header_control_empty() {
     let wb = W::from(UniStreamHeader::Control(Settings::default()));
-    let want = spec_bytes_lit(
-        spec_bytes_varint(spec_bytes_new(), SPEC_ST_CONTROL),
-        &spec_frame_hdr(SPEC_FT_SETTINGS, 0).b[..2],
-    );
+    let want = spec_bytes_varint(spec_bytes_varint(spec_bytes_varint(spec_bytes_new(), SPEC_ST_CONTROL), SPEC_FT_SETTINGS), 0);
     assert!(want.n == 3);
-    let a = check_with_one_advance(wb, &want, None);
-    kani::cover!(a == 2);
+    assert_fresh(&wb, &want);
+    assert!(wb.frame.is_none());
+    kani::cover!(true);
 }
 
 // vp: props=C19,C14; tag=C19.writebuf.wt-uni; kind=complete; tier=quick
 // a WebTransport uni stream starts with varint(0x54) ++ varint(session id), for every session id
 #[kani::proof]
-#[kani::unwind(25)]
+#[kani::unwind(10)]
 fn c19_writebuf_from_wt_uni_header() {
     let id: u64 = kani::any();
     kani::assume(id < TWO62);
@@ -186,16 +224,16 @@ fn c19_writebuf_from_wt_uni_header() {
     assert!(wb.frame.is_none());
     let want = spec_bytes_varint(spec_bytes_varint(spec_bytes_new(), SPEC_WT_UNI_STREAM), id);
     assert!(want.b[0] == 0x40 && want.b[1] == 0x54);
-    let a = check_with_one_advance(wb, &want, None);
-    kani::cover!(want.n == 10 && a == 5);
-    kani::cover!(want.n == 3 && a == 3);
+    assert_fresh(&wb, &want);
+    kani::cover!(want.n == 10);
+    kani::cover!(want.n == 3);
     kani::cover!(id == 8);
 }
 
 // vp: props=C19,C14; tag=C19.writebuf.wt-bidi; kind=complete; tier=quick
 // a WebTransport bidi stream starts with varint(0x41) ++ varint(session id), for every session id
 #[kani::proof]
-#[kani::unwind(25)]
+#[kani::unwind(10)]
 fn c19_writebuf_from_wt_bidi_header() {
     let id: u64 = kani::any();
     kani::assume(id < TWO62);
@@ -203,262 +241,327 @@ fn c19_writebuf_from_wt_bidi_header() {
     assert!(wb.frame.is_none());
     let want = spec_bytes_varint(spec_bytes_varint(spec_bytes_new(), SPEC_WT_BIDI_SIGNAL), id);
     assert!(want.b[0] == 0x40 && want.b[1] == 0x41);
-    let a = check_with_one_advance(wb, &want, None);
-    kani::cover!(want.n == 10 && a == 9);
+    assert_fresh(&wb, &want);
+    kani::cover!(want.n == 10);
     kani::cover!(want.n == 4);
     kani::cover!(id == 4);
 }
 
 // vp: props=C19; tag=C19.writebuf.wt-session-of-stream; kind=complete; tier=quick
 // end to end for the server's open_bi/open_uni(session.session_id()): the header written for the session
-// of CONNECT stream s carries s itself
+// of CONNECT stream s (any client-initiated bidirectional id) carries s itself
 #[kani::proof]
-#[kani::unwind(25)]
+#[kani::unwind(10)]
 fn c19_writebuf_header_names_the_connect_stream() {
     let k: u64 = kani::any();
     kani::assume(k < TWO62 / 4);
-    let s = k * 4; // client-initiated bidirectional
+    let s = k * 4;
     let sid = crate::proto::stream::StreamId::try_from(s).unwrap();
     let wb = W::from(BidiStreamHeader::WebTransportBidi(SessionId::from(sid)));
-    let want = spec_bytes_varint(spec_bytes_varint(spec_bytes_new(), SPEC_WT_BIDI_SIGNAL), s);
-    check_view(&wb, &want, None, 0);
+    assert_fresh(&wb, &spec_bytes_varint(spec_bytes_varint(spec_bytes_new(), SPEC_WT_BIDI_SIGNAL), s));
     let wu = W::from(UniStreamHeader::WebTransportUni(SessionId::from(sid)));
-    let wantu = spec_bytes_varint(spec_bytes_varint(spec_bytes_new(), SPEC_WT_UNI_STREAM), s);
-    check_view(&wu, &wantu, None, 0);
+    assert_fresh(&wu, &spec_bytes_varint(spec_bytes_varint(spec_bytes_new(), SPEC_WT_UNI_STREAM), s));
     kani::cover!(s == 0);
     kani::cover!(s == 8);
     kani::cover!(s > 16384);
 }
 
-// ------------------------------------------------------------------------------------------ frames
-
-// vp: props=C14; tag=C14.writebuf.data; kind=complete; tier=quick
-// WriteBuf::from(Frame::Data(p)) == 00 ++ varint(p.remaining()) then p, for every payload length
+// vp: props=C14; tag=C14.writebuf.from.data; kind=complete; tier=quick
+// WriteBuf::from(Frame::Data(p)): header 00 ++ varint(p.remaining()) — the whole payload, not its first
+// chunk — and p stored untouched, for every payload length < 2^62
 #[kani::proof]
-#[kani::unwind(25)]
+#[kani::unwind(10)]
 #[kani::stub(fastrand::u64, stub_fastrand_u64)]
 fn c14_writebuf_from_frame_data() {
     let p = any_payload();
     let (rem0, cap) = (p.rem, p.cap);
     let wb = W::from(Frame::Data(p));
     let want = spec_frame_hdr(SPEC_FT_DATA, rem0 as u64);
-    assert!(wb.pos == 0);
-    let a = check_with_one_advance(wb, &want, Some((rem0, cap)));
+    assert_fresh(&wb, &want);
+    assert!(payload_state(&wb) == Some((rem0, 0)));
+    assert!(wb.remaining() == want.n + rem0);
+    std::mem::forget(wb);
     kani::cover!(rem0 == 0);
-    kani::cover!(rem0 > 4 && cap < 4 && a == 0); // payload longer than its first chunk
-    kani::cover!(want.n == 9 && a > 9);
-    kani::cover!(want.n == 3 && a == 2);
+    kani::cover!(rem0 > 4 && cap < 4); // payload longer than its first chunk
+    kani::cover!(want.n == 9);
+    kani::cover!(want.n == 3);
 }
 
-// vp: props=C14; tag=C14.writebuf.view; kind=complete; tier=quick
-// impl Buf for WriteBuf: after any two advances remaining()/chunk() expose exactly the rest of
-// `header ++ payload`: the header bytes first, then the payload, nothing skipped, nothing repeated
+// vp: props=C14; tag=C14.writebuf.from.single-varint; kind=complete; tier=quick
+// GOAWAY (sent by shutdown), CANCEL_PUSH, MAX_PUSH_ID: the complete frame type ++ varint(|varint(id)|) ++
+// varint(id) sits in the header buffer, for every id
 #[kani::proof]
-#[kani::unwind(25)]
+#[kani::unwind(10)]
 #[kani::stub(fastrand::u64, stub_fastrand_u64)]
-fn c14_writebuf_data_view_any_two_advances() {
-    let p = any_payload();
-    let (rem0, cap) = (p.rem, p.cap);
-    let mut wb = W::from(Frame::Data(p));
-    let want = spec_frame_hdr(SPEC_FT_DATA, rem0 as u64);
-    let n = want.n;
-    let total = n + rem0;
-    let a1: usize = kani::any();
-    kani::assume(a1 <= total);
-    wb.advance(a1);
-    check_view(&wb, &want, Some((rem0, cap)), a1);
-    let a2: usize = kani::any();
-    kani::assume(a2 <= total - a1);
-    wb.advance(a2);
-    check_view(&wb, &want, Some((rem0, cap)), a1 + a2);
-    std::mem::forget(wb);
-    kani::cover!(a1 > 0 && a2 > 0 && a1 + a2 < n); // both inside the header
-    kani::cover!(a1 < n && a1 + a2 > n); // second advance crosses into the payload
-    kani::cover!(a1 == n && a2 > 0);
-    kani::cover!(a1 > n && a2 > 0 && a1 + a2 < total); // both inside the payload
-    kani::cover!(a1 + a2 == total && rem0 > 0 && n == 9);
-    kani::cover!(a1 == 0 && a2 == 0);
-}
-
-// vp: props=C14; tag=C14.writebuf.drain; kind=complete; tier=quick
-// the way h3-quinn drains it (write chunk(), advance by what was accepted): header whole and first, then
-// the payload's chunks in order; a partial acceptance of the header leaves its rest
-#[kani::proof]
-#[kani::unwind(25)]
-#[kani::stub(fastrand::u64, stub_fastrand_u64)]
-fn c14_writebuf_data_drain_by_chunks() {
-    let p = any_payload();
-    let (rem0, cap) = (p.rem, p.cap);
-    let mut wb = W::from(Frame::Data(p));
-    let want = spec_frame_hdr(SPEC_FT_DATA, rem0 as u64);
-    let n = want.n;
-    check_view(&wb, &want, Some((rem0, cap)), 0);
-    // transport accepts only part of the first chunk
-    let acc: usize = kani::any();
-    kani::assume(1 <= acc && acc <= wb.chunk().len());
-    wb.advance(acc);
-    check_view(&wb, &want, Some((rem0, cap)), acc);
-    // then the rest of that chunk
-    let l1 = wb.chunk().len();
-    wb.advance(l1);
-    let done = acc + l1;
-    check_view(&wb, &want, Some((rem0, cap)), done);
-    assert!(done >= n); // the header never survives two chunk-sized advances
-    let l2 = wb.chunk().len();
-    wb.advance(l2);
-    check_view(&wb, &want, Some((rem0, cap)), done + l2);
-    std::mem::forget(wb);
-    kani::cover!(acc == 1 && n == 9 && l2 == 4);
-    kani::cover!(acc == n && l1 > 0);
-    kani::cover!(l2 == 0);
-}
-
-// vp: props=C14; tag=C14.writebuf.goaway; kind=complete; tier=quick
-// GOAWAY (sent by shutdown): a complete frame 07 ++ varint(|varint(id)|) ++ varint(id) in the header
-// buffer, no payload, for every id
-#[kani::proof]
-#[kani::unwind(25)]
-#[kani::stub(fastrand::u64, stub_fastrand_u64)]
-fn c14_writebuf_from_frame_goaway() {
+fn c14_writebuf_from_frame_goaway_cancelpush_maxpushid() {
     let id: u64 = kani::any();
     kani::assume(id < TWO62);
+    let g = W::from(Frame::Goaway(VarInt::from_u64(id).unwrap()));
     let want = spec_frame_single_varint(SPEC_FT_GOAWAY, id);
-    let a = check_with_one_advance(W::from(Frame::Goaway(VarInt::from_u64(id).unwrap())), &want, None);
-    kani::cover!(id >= 1 << 30 && a == 10);
-    kani::cover!(id == 0 && a == 1);
+    assert_fresh(&g, &want);
+    assert!(payload_state(&g).is_none());
+    std::mem::forget(g);
+    let c = W::from(Frame::CancelPush(PushId::try_from(id).unwrap()));
+    assert_fresh(&c, &spec_frame_single_varint(SPEC_FT_CANCEL_PUSH, id));
+    std::mem::forget(c);
+    let m = W::from(Frame::MaxPushId(PushId::try_from(id).unwrap()));
+    assert_fresh(&m, &spec_frame_single_varint(SPEC_FT_MAX_PUSH_ID, id));
+    std::mem::forget(m);
+    kani::cover!(want.n == 10);
+    kani::cover!(want.n == 3);
 }
 
-// vp: props=C14; tag=C14.writebuf.cancel-push; kind=complete; tier=quick
+// vp: props=C14; tag=C14.writebuf.from.grease-frame; kind=complete; tier=quick
+// the grease frame: type 0x1f*N+0x21 for the N drawn (any N the generator can return), length 6, "grease"
 #[kani::proof]
-#[kani::unwind(25)]
-#[kani::stub(fastrand::u64, stub_fastrand_u64)]
-fn c14_writebuf_from_frame_cancel_push() {
-    let id: u64 = kani::any();
-    kani::assume(id < TWO62);
-    let want = spec_frame_single_varint(SPEC_FT_CANCEL_PUSH, id);
-    let a = check_with_one_advance(W::from(Frame::CancelPush(PushId::try_from(id).unwrap())), &want, None);
-    kani::cover!(want.n == 6 && a == 6);
-}
-
-// vp: props=C14; tag=C14.writebuf.max-push-id; kind=complete; tier=quick
-#[kani::proof]
-#[kani::unwind(25)]
-#[kani::stub(fastrand::u64, stub_fastrand_u64)]
-fn c14_writebuf_from_frame_max_push_id() {
-    let id: u64 = kani::any();
-    kani::assume(id < TWO62);
-    let want = spec_frame_single_varint(SPEC_FT_MAX_PUSH_ID, id);
-    let a = check_with_one_advance(W::from(Frame::MaxPushId(PushId::try_from(id).unwrap())), &want, None);
-    kani::cover!(want.n == 4 && a == 0);
-}
-
-// vp: props=C14; tag=C14.writebuf.grease-frame; kind=complete; tier=quick
-// the grease frame: reserved type (any value the generator can return), length 6, "grease"; <= 15 bytes
-#[kani::proof]
-#[kani::unwind(25)]
+#[kani::unwind(10)]
 #[kani::stub(fastrand::u64, stub_fastrand_u64)]
 fn c14_writebuf_from_frame_grease() {
     let wb = W::from(Frame::Grease);
-    let g = spec_varint_dec(&wb.buf[..wb.len]).unwrap().0;
-    assert!(spec_is_grease(g) && g < TWO62 && !spec_is_h2_reserved_frame_type(g));
-    let want = spec_bytes_lit(spec_frame_hdr(g, 6), b"grease");
+    assert!(rand_count() == 1);
+    let g = spec_grease_nth(rand_log(0));
+    assert!(g < TWO62 as u128);
+    let want = spec_bytes_lit(spec_frame_hdr(g as u64, 6), b"grease");
     assert!(want.n <= 15);
-    let a = check_with_one_advance(wb, &want, None);
-    kani::cover!(want.n == 15 && a == 9);
+    assert_fresh(&wb, &want);
+    std::mem::forget(wb);
+    kani::cover!(want.n == 15);
     kani::cover!(want.n == 8);
 }
 
-// vp: props=C14; tag=C14.writebuf.grease-stream; kind=complete; tier=quick
-// the grease stream: reserved stream type, then one grease frame — 23 bytes at most, all in the buffer
+// vp: props=C14; tag=C14.writebuf.from.grease-stream; kind=complete; tier=quick
+// the grease stream (StreamType::grease(), Frame::Grease): reserved stream type, then one grease frame;
+// 23 bytes at most, all inside the 64-byte buffer
 #[kani::proof]
-#[kani::unwind(25)]
+#[kani::unwind(10)]
 #[kani::stub(fastrand::u64, stub_fastrand_u64)]
 fn c14_writebuf_from_grease_stream() {
-    let wb = W::from((StreamType::grease(), Frame::Grease));
-    let (st, sl) = spec_varint_dec(&wb.buf[..wb.len]).unwrap();
-    assert!(spec_is_grease(st) && st < TWO62);
-    let ft = spec_varint_dec(&wb.buf[sl..wb.len]).unwrap().0;
-    assert!(spec_is_grease(ft) && ft < TWO62 && !spec_is_h2_reserved_frame_type(ft));
+    let ty = StreamType::grease();
+    let wb = W::from((ty, Frame::Grease));
+    assert!(rand_count() == 2);
+    let st = spec_grease_nth(rand_log(0));
+    let ft = spec_grease_nth(rand_log(1));
+    assert!(st < TWO62 as u128 && ft < TWO62 as u128);
     let want = spec_bytes_lit(
-        spec_bytes_varint(spec_bytes_varint(spec_bytes_varint(spec_bytes_new(), st), ft), 6),
+        spec_bytes_varint(spec_bytes_varint(spec_bytes_varint(spec_bytes_new(), st as u64), ft as u64), 6),
         b"grease",
     );
     assert!(want.n <= 23);
-    check_view(&wb, &want, None, 0);
+    assert_fresh(&wb, &want);
     std::mem::forget(wb);
     kani::cover!(want.n == 23);
     kani::cover!(want.n == 9);
     kani::cover!(st != ft);
 }
 
-// vp: props=C14; tag=C14.writebuf.type-and-frame; kind=complete; tier=quick
-// (StreamType, Frame::Data): varint(stream type) ++ frame header, then the payload; the largest header a
-// DATA frame can have (8 + 1 + 8 = 17 bytes) fits
+// vp: props=C14; tag=C14.writebuf.from.type-and-frame; kind=complete; tier=quick
+// (StreamType, Frame::Data): varint(stream type) ++ frame header; the largest such header
+// (8 + 1 + 8 = 17 bytes) fits
 #[kani::proof]
-#[kani::unwind(25)]
+#[kani::unwind(10)]
 #[kani::stub(fastrand::u64, stub_fastrand_u64)]
 fn c14_writebuf_from_streamtype_and_data() {
     let t: u64 = kani::any();
     kani::assume(t < TWO62);
     let p = any_payload();
-    let (rem0, cap) = (p.rem, p.cap);
+    let rem0 = p.rem;
     let wb = W::from((StreamType::from_value(t), Frame::Data(p)));
     let want = spec_bytes_varint(spec_bytes_varint(spec_bytes_varint(spec_bytes_new(), t), SPEC_FT_DATA), rem0 as u64);
-    let a = check_with_one_advance(wb, &want, Some((rem0, cap)));
-    kani::cover!(want.n == 17 && a == 17 && rem0 > 0);
-    kani::cover!(want.n == 3 && a == 4);
+    assert_fresh(&wb, &want);
+    assert!(payload_state(&wb) == Some((rem0, 0)));
+    std::mem::forget(wb);
+    kani::cover!(want.n == 17);
+    kani::cover!(want.n == 3);
 }
 
 // vp: props=C19,C14; tag=C19.writebuf.wt-frame; kind=complete; tier=quick
 // Frame::WebTransportStream(id) as a WriteBuf: varint(0x41) ++ varint(id), no length, no payload
 #[kani::proof]
-#[kani::unwind(25)]
+#[kani::unwind(10)]
 #[kani::stub(fastrand::u64, stub_fastrand_u64)]
 fn c19_writebuf_from_frame_wt_stream() {
     let id: u64 = kani::any();
     kani::assume(id < TWO62);
     let wb = W::from(Frame::WebTransportStream(SessionId::try_from(id).unwrap()));
     let want = spec_bytes_varint(spec_bytes_varint(spec_bytes_new(), SPEC_WT_BIDI_SIGNAL), id);
-    let a = check_with_one_advance(wb, &want, None);
-    kani::cover!(want.n == 10 && a == 2);
+    assert_fresh(&wb, &want);
+    assert!(payload_state(&wb).is_none());
+    std::mem::forget(wb);
+    kani::cover!(want.n == 10);
 }
-
-// ------------------------------------------------------------------- HEADERS (payload is a real `Bytes`)
 
 const HDR_BLOCK_MAX: usize = 80;
 static HDR_BLOCK: [u8; HDR_BLOCK_MAX] = [0x5a; HDR_BLOCK_MAX];
 
-// vp: props=C14; tag=C14.writebuf.headers; kind=bounded; bound=field section <= 80 bytes (1- and 2-byte length forms); tier=quick
-// WriteBuf::from(Frame::Headers(block)) == 01 ++ varint(|block|) then the block's own bytes, in place, under
-// any two advances.  `Frame::Headers` holds a real `Bytes`, so this one is bounded by the static array
-// behind it; nothing in `WriteBuf` depends on the payload's size beyond `remaining()`.
+// vp: props=C14; tag=C14.writebuf.from.headers; kind=bounded; bound=field section <= 80 bytes (1- and 2-byte length forms); tier=quick
+// WriteBuf::from(Frame::Headers(block)): header 01 ++ varint(|block|), block stored untouched.  `Headers`
+// holds a real `Bytes`, so its length is bounded by the static array behind it; `WriteBuf` passes
+// `len()` to `write_var` (C16.encode: all values).
 #[kani::proof]
-#[kani::unwind(25)]
+#[kani::unwind(10)]
 #[kani::stub(fastrand::u64, stub_fastrand_u64)]
-fn c14_writebuf_headers_view_any_two_advances() {
+fn c14_writebuf_from_frame_headers() {
     let n: usize = kani::any();
     kani::assume(n <= HDR_BLOCK_MAX);
-    let mut wb = W::from(Frame::Headers(Bytes::from_static(&HDR_BLOCK[..n])));
+    let wb = W::from(Frame::Headers(Bytes::from_static(&HDR_BLOCK[..n])));
     let want = spec_frame_hdr(SPEC_FT_HEADERS, n as u64);
-    let h = want.n;
-    assert!(wb.len == h && wb.pos == 0);
+    assert_fresh(&wb, &want);
+    assert!(wb.remaining() == want.n + n);
+    match &wb.frame {
+        Some(Frame::Headers(b)) => {
+            assert!(b.len() == n && b.as_ptr() == HDR_BLOCK.as_ptr());
+        }
+        _ => panic!("frame lost"),
+    }
+    std::mem::forget(wb);
+    kani::cover!(n == 0);
+    kani::cover!(want.n == 3);
+}
+
+/// content-free encoder: puts `data[..k]` in two pieces (any split), as a sequence of `put`s does
+struct MockEnc {
+    data: [u8; WRITE_BUF_ENCODE_SIZE],
+    j: usize,
+    k: usize,
+}
+impl Encode for MockEnc {
+    fn encode<B: BufMut>(&self, buf: &mut B) {
+        buf.put_slice(&self.data[..self.j]);
+        buf.put_slice(&self.data[self.j..self.k]);
+    }
+}
+
+// vp: props=C14; tag=C14.writebuf.encode-value; kind=complete; tier=thorough
+// WriteBuf::encode_value(e) (the body of From<UniStreamHeader>, From<BidiStreamHeader> and the first half of
+// From<(StreamType, Frame)>): for ANY encoder output of k <= 64 - len bytes, those bytes land at
+// buf[len..len+k] in order, len grows by k, every other byte and `pos` stay as they were
+#[kani::proof]
+fn c14_writebuf_encode_value_appends_verbatim() {
+    let mut wb = any_state(None);
+    let (buf0, len0, pos0) = (wb.buf, wb.len, wb.pos);
+    let e = MockEnc { data: kani::any(), j: kani::any(), k: kani::any() };
+    kani::assume(e.j <= e.k && e.k <= WRITE_BUF_ENCODE_SIZE - len0);
+    let (data, k, j) = (e.data, e.k, e.j);
+    wb.encode_value(e);
+    assert!(wb.len == len0 + k);
+    assert!(wb.pos == pos0);
+    assert!(wb.frame.is_none());
+    let i: usize = kani::any();
+    kani::assume(i < WRITE_BUF_ENCODE_SIZE);
+    if i >= len0 && i < len0 + k {
+        assert!(wb.buf[i] == data[i - len0]);
+    } else {
+        assert!(wb.buf[i] == buf0[i]);
+    }
+    kani::cover!(len0 == 0 && k == 64 && j == 1);
+    kani::cover!(len0 == 8 && k == 42 && i == 30);
+    kani::cover!(k == 0);
+}
+
+// ================================================= Part B: impl Buf for WriteBuf on every representable state
+
+// vp: props=C14; tag=C14.writebuf.buf.header-only; kind=complete; tier=quick
+// frame == None (stream headers): any header bytes, any pos <= len <= 64, any two advances
+#[kani::proof]
+fn c14_writebuf_buf_header_only() {
+    let (h, a1, a2) = check_buf_no_payload(any_state(None));
+    kani::cover!(h == 64 && a1 == 64);
+    kani::cover!(a1 > 0 && a2 > 0 && a1 + a2 < h);
+    kani::cover!(h == 0);
+    kani::cover!(a1 + a2 == h && a2 > 0);
+}
+
+// vp: props=C14; tag=C14.writebuf.buf.payloadless; kind=complete; tier=quick
+// frames that live entirely in the header buffer (GOAWAY, grease, SETTINGS): same view, nothing is ever
+// taken from a payload that does not exist
+#[kani::proof]
+#[kani::stub(fastrand::u64, stub_fastrand_u64)]
+fn c14_writebuf_buf_payloadless_frames() {
+    let id: u64 = kani::any();
+    kani::assume(id < TWO62);
+    let (h, a1, a2) = check_buf_no_payload(any_state(Some(Frame::Goaway(VarInt::from_u64(id).unwrap()))));
+    check_buf_no_payload(any_state(Some(Frame::Grease)));
+    check_buf_no_payload(any_state(Some(Frame::Settings(Settings::default()))));
+    kani::cover!(h == 10 && a1 == 3 && a2 == 7);
+}
+
+// vp: props=C14,C19; tag=C14.writebuf.buf.payloadless2; kind=complete; tier=quick
+// ... and the WebTransport signal and the two push-id frames
+#[kani::proof]
+#[kani::stub(fastrand::u64, stub_fastrand_u64)]
+fn c14_writebuf_buf_payloadless_frames_2() {
+    let id: u64 = kani::any();
+    kani::assume(id < TWO62);
+    let (h, a1, a2) =
+        check_buf_no_payload(any_state(Some(Frame::WebTransportStream(SessionId::try_from(id).unwrap()))));
+    check_buf_no_payload(any_state(Some(Frame::CancelPush(PushId::try_from(id).unwrap()))));
+    check_buf_no_payload(any_state(Some(Frame::MaxPushId(PushId::try_from(id).unwrap()))));
+    kani::cover!(h == 10 && a1 == 2 && a2 == 8);
+}
+
+// vp: props=C14; tag=C14.writebuf.buf.data; kind=complete; tier=quick
+// frame == Data(payload): any header bytes, any pos <= len <= 64, any payload length / chunking, any two
+// advances: header rest first, then the payload advanced by exactly what went past the header
+#[kani::proof]
+#[kani::stub(fastrand::u64, stub_fastrand_u64)]
+fn c14_writebuf_buf_data_any_two_advances() {
+    let p = any_payload();
+    let (rem0, cap) = (p.rem, p.cap);
+    let mut wb = any_state(Some(Frame::Data(p)));
+    let (buf0, len0, pos0) = (wb.buf, wb.len, wb.pos);
+    let h = len0 - pos0;
+    view_matches(&wb, &buf0, len0, pos0, Some((rem0, cap, 0)));
+    let a1: usize = kani::any();
+    kani::assume(a1 <= h + rem0);
+    wb.advance(a1);
+    let h1 = if a1 < h { a1 } else { h }; // part of a1 that fell into the header
+    view_matches(&wb, &buf0, len0, pos0 + h1, Some((rem0 - (a1 - h1), cap, a1 - h1)));
+    let a2: usize = kani::any();
+    kani::assume(a2 <= h + rem0 - a1);
+    wb.advance(a2);
+    let h2 = if a2 < h - h1 { a2 } else { h - h1 };
+    view_matches(
+        &wb,
+        &buf0,
+        len0,
+        pos0 + h1 + h2,
+        Some((rem0 - (a1 - h1) - (a2 - h2), cap, (a1 - h1) + (a2 - h2))),
+    );
+    std::mem::forget(wb);
+    kani::cover!(a1 > 0 && a2 > 0 && a1 + a2 < h); // both inside the header
+    kani::cover!(a1 < h && a1 + a2 > h); // second advance crosses into the payload
+    kani::cover!(a1 == h && h > 0 && a2 > 0);
+    kani::cover!(a1 > h && a2 > 0 && a1 + a2 < h + rem0); // both inside the payload
+    kani::cover!(a1 + a2 == h + rem0 && rem0 > 4 && h == 64);
+    kani::cover!(h == 0 && a1 > 0);
+}
+
+// vp: props=C14; tag=C14.writebuf.buf.headers; kind=bounded; bound=field section <= 80 bytes; tier=quick
+// frame == Headers(real Bytes): header rest first, then the block's own bytes in place, to its end
+#[kani::proof]
+#[kani::unwind(5)]
+#[kani::stub(fastrand::u64, stub_fastrand_u64)]
+fn c14_writebuf_buf_headers_any_two_advances() {
+    let n: usize = kani::any();
+    kani::assume(n <= HDR_BLOCK_MAX);
+    let mut wb = any_state(Some(Frame::Headers(Bytes::from_static(&HDR_BLOCK[..n]))));
+    let (buf0, len0, pos0) = (wb.buf, wb.len, wb.pos);
+    let h = len0 - pos0;
     let total = h + n;
     let mut consumed = 0;
     let mut round = 0;
     while round < 3 {
+        assert!(wb.len == len0 && wb.pos <= wb.len);
         assert!(wb.remaining() == total - consumed);
         let c = wb.chunk();
         if consumed < h {
+            assert!(wb.pos == pos0 + consumed);
             assert!(c.len() == h - consumed);
-            let mut i = 0;
-            while i < 3 {
-                if i < c.len() {
-                    assert!(c[i] == want.b[consumed + i]);
-                }
-                i += 1;
-            }
+            let k: usize = kani::any();
+            kani::assume(k < c.len());
+            assert!(c[k] == buf0[pos0 + consumed + k]);
         } else {
-            // the block itself, from where we are, to its end
+            assert!(wb.pos == len0);
             assert!(c.len() == total - consumed);
             assert!(c.as_ptr() == HDR_BLOCK[consumed - h..].as_ptr());
         }
@@ -471,8 +574,70 @@ fn c14_writebuf_headers_view_any_two_advances() {
         round += 1;
     }
     std::mem::forget(wb);
-    kani::cover!(n == 0);
-    kani::cover!(h == 3 && consumed == total);
+    kani::cover!(n == 0 && h > 0);
+    kani::cover!(consumed == total && n == 80 && h == 64);
     kani::cover!(consumed > h && consumed < total);
-    kani::cover!(consumed == 1);
+}
+
+// ======================================================== Part C: From + Buf composed, for DATA frames
+
+// vp: props=C14; tag=C14.writebuf.data.e2e; kind=complete; tier=thorough
+// WriteBuf::from(Frame::Data(p)) then any two advances: what comes out is 00 ++ varint(|p|) ++ p
+#[kani::proof]
+#[kani::unwind(10)]
+#[kani::stub(fastrand::u64, stub_fastrand_u64)]
+fn c14_writebuf_data_view_any_two_advances() {
+    let p = any_payload();
+    let (rem0, cap) = (p.rem, p.cap);
+    let mut wb = W::from(Frame::Data(p));
+    let want = spec_frame_hdr(SPEC_FT_DATA, rem0 as u64);
+    assert_fresh(&wb, &want);
+    let (buf0, n) = (wb.buf, want.n);
+    let a1: usize = kani::any();
+    kani::assume(a1 <= n + rem0);
+    wb.advance(a1);
+    let h1 = if a1 < n { a1 } else { n };
+    view_matches(&wb, &buf0, n, h1, Some((rem0 - (a1 - h1), cap, a1 - h1)));
+    let a2: usize = kani::any();
+    kani::assume(a2 <= n + rem0 - a1);
+    wb.advance(a2);
+    let h2 = if a2 < n - h1 { a2 } else { n - h1 };
+    view_matches(&wb, &buf0, n, h1 + h2, Some((rem0 - (a1 - h1) - (a2 - h2), cap, (a1 - h1) + (a2 - h2))));
+    std::mem::forget(wb);
+    kani::cover!(a1 < n && a1 + a2 > n);
+    kani::cover!(a1 + a2 == n + rem0 && rem0 > 0 && n == 9);
+}
+
+// vp: props=C14; tag=C14.writebuf.data.drain; kind=complete; tier=quick
+// the way h3-quinn drains it (write chunk(), advance by what the transport accepted): a partially accepted
+// header leaves exactly its rest; then the payload's chunks in order
+#[kani::proof]
+#[kani::unwind(10)]
+#[kani::stub(fastrand::u64, stub_fastrand_u64)]
+fn c14_writebuf_data_drain_by_chunks() {
+    let p = any_payload();
+    let (rem0, cap) = (p.rem, p.cap);
+    let mut wb = W::from(Frame::Data(p));
+    let want = spec_frame_hdr(SPEC_FT_DATA, rem0 as u64);
+    assert_fresh(&wb, &want);
+    let (buf0, n) = (wb.buf, want.n);
+    view_matches(&wb, &buf0, n, 0, Some((rem0, cap, 0)));
+    let acc: usize = kani::any(); // transport accepts only part of the first chunk
+    kani::assume(1 <= acc && acc <= wb.chunk().len());
+    assert!(acc <= n);
+    wb.advance(acc);
+    view_matches(&wb, &buf0, n, acc, Some((rem0, cap, 0)));
+    if acc < n {
+        let l1 = wb.chunk().len();
+        assert!(l1 == n - acc);
+        wb.advance(l1);
+    }
+    view_matches(&wb, &buf0, n, n, Some((rem0, cap, 0)));
+    let l2 = wb.chunk().len();
+    wb.advance(l2);
+    view_matches(&wb, &buf0, n, n, Some((rem0 - l2, cap, l2)));
+    std::mem::forget(wb);
+    kani::cover!(acc == 1 && n == 9 && l2 == 4);
+    kani::cover!(acc == n);
+    kani::cover!(l2 == 0);
 }
